@@ -33,7 +33,7 @@ def classify(line):
 CFG = dict(
     imports=["From Verif.C44 Require Import Model Spec.", "Open Scope N_scope."],
     checker="check_all",
-    n=dict(quick=160, thorough=12000),
+    n=dict(quick=160, thorough=1920),
     shard=40,
     classify=classify,
     rule="histories of 2-7 batches (each 0-4 WorkloadEndpointUpdate/Remove messages followed by ResolveUpdateBatch + "
